@@ -686,6 +686,44 @@ def search(ck):
             elif not nostate and a.implicit_hydrogens is not None and not (a.atomic_number == 1 or m.check_implicit(k, a.implicit_hydrogens)):
                 ck.counterexample(f'stored-not-accepted:{smi}:{n}:{kind}:{k}', 'stored hydrogen count is not accepted by check_implicit',
                                   {'smiles': smi, 'perturbed_atom': n, 'perturbation': kind, 'atom': k}, a.implicit_hydrogens, 'accepted', 'check_implicit')
+    # totals are the sums over atoms ALSO after the documented way of editing (`with mol: mol.atom(n).charge = x`), with the
+    # totals read (hence cached) before the edit: the sums are re-derived from the atoms themselves
+    for smi, m0 in parsed[:150 if ck.tier == 'quick' else 1500]:
+        if any(a.implicit_hydrogens is None for _, a in m0.atoms()):
+            continue
+        for kind in ('charge', 'radical', 'charge+atom'):
+            m = m0.copy()
+            _ = (m.brutto, int(m), m.is_radical, float(m))      # fill the cache
+            cand = [n for n, a in m.atoms() if a.atomic_number in (7, 8, 16) and a.charge == 0 and not a.is_radical and a.implicit_hydrogens]
+            if not cand:
+                break
+            n = cand[0]
+            try:
+                with m:
+                    if kind == 'radical':
+                        m.atom(n).is_radical = True
+                    else:
+                        m.atom(n).charge = -1
+                    if kind == 'charge+atom':
+                        m.add_atom('C')
+            except Exception:
+                continue
+            ck.case(('txn-totals', smi, kind))
+            ck.count(f'search:txn-totals({kind})')
+            if any(a.implicit_hydrogens is None for _, a in m.atoms()):
+                continue
+            cnt = collections.Counter(a.atomic_symbol for _, a in m.atoms())
+            cnt['H'] += sum(a.implicit_hydrogens for _, a in m.atoms())
+            cnt = {k: v for k, v in cnt.items() if v}
+            obs = ({k: v for k, v in m.brutto.items() if v}, int(m), m.is_radical)
+            exp = (cnt, sum(a.charge for _, a in m.atoms()), any(a.is_radical for _, a in m.atoms()))
+            ex = float(sum(exact_atomic_mass(a) + a.implicit_hydrogens * hm for _, a in m.atoms()))
+            if obs != exp or abs(float(m) - ex) > 1e-9 * max(1.0, ex):
+                ck.counterexample(f'txn-totals:{kind}:{smi}', 'after reading the totals and editing an atom inside `with mol:` the formula / charge / radical flag / mass '
+                                  'are not the sums over the atoms incl. implicit hydrogens', {'smiles': smi, 'atom': n, 'edit': kind}, [obs, float(m)], [exp, ex],
+                                  'sums re-derived from the atoms',
+                                  replay_py=f"from chython import smiles; m=smiles({smi!r}); m.kekule(); print(m.brutto,int(m)); \nwith m: m.atom({n}).charge=-1\nprint(m.brutto,int(m),[(k,a.charge,a.implicit_hydrogens) for k,a in m.atoms()])")
+                break
     # boundary: the empty molecule
     from chython import MoleculeContainer
     try:
